@@ -97,6 +97,7 @@ PERMS5 = [
     [[0, 1, 2, 3, 4], [4, 3, 2, 1, 0], [2, 3, 4, 0, 1], [4, 0, 1, 2, 3], [0, 1, 3, 2, 4], [4, 2, 0, 3, 1]],
     [[0, 1, 2, 3, 4], [4, 3, 2, 1, 0], [1, 2, 3, 4, 0], [2, 3, 4, 0, 1], [4, 1, 2, 3, 0], [2, 4, 1, 3, 0]],
 ]
+SCALES = [1e-30, 1e-6, 1e6, 1e30]     # float32 range is 1e-38..3e38; sums of n terms stay inside
 ROUNDS = (0, 3)
 ILLEGAL = ",:;()"
 
@@ -169,7 +170,13 @@ def build_impl(spec):
             nd = TreeNode(index=s)
         else:
             kids = [rec(cs) for cs, _ in s]
-            nd = TreeNode(kids, [d for _, d in s])
+            dl = [d for _, d in s]
+            nd = TreeNode(kids, dl)
+            # input aliasing: the argument lists are changed right after the call; every later
+            # observation of the node is made against the model, so a node that kept a reference shows up
+            kids.reverse()
+            kids.append(None)
+            dl[:] = [-7.0] * (len(dl) + 1)
         nodes[slot] = nd
         return nd
 
@@ -251,7 +258,41 @@ def make_array(D, variant):
         big = np.zeros((2 * n, 2 * n), dtype=np.float64)
         big[::2, ::2] = np.array(D, dtype=np.float64).reshape(n, n)
         return big[::2, ::2]
+    base = np.array(D, dtype=np.float64).reshape(n, n)
+    if variant == "readonly":
+        base.setflags(write=False)
+        return base
+    if variant == "readonly_float32":
+        a = base.astype(np.float32)
+        a.setflags(write=False)
+        return a
+    if variant == "transposed":
+        return np.ascontiguousarray(base.T).T          # Fortran-strided view of a C array
+    if variant == "uint8":
+        return base.astype(np.uint8)
+    if variant == "int8":
+        return base.astype(np.int8)
+    if variant == "float16":
+        return base.astype(np.float16)
+    if variant == "bigendian":
+        return base.astype(">f8")
+    if variant == "subclass":
+        return base.view(_ArraySubclass)
+    if variant == "list":
+        return [list(r) for r in D]
+    if variant == "object":
+        return base.astype(object)
     raise ValueError(variant)
+
+
+class _ArraySubclass(np.ndarray):
+    pass
+
+
+INTEGRAL_VARIANTS = ("int64", "int32", "uint8", "int8")
+EITHER_VARIANTS = ("list", "object")       # documented parameter type is ndarray of numbers
+NEW_VARIANTS = ["readonly", "readonly_float32", "transposed", "uint8", "int8", "float16", "bigendian", "subclass",
+                "list", "object"]
 
 
 def matrix_class(n, tri):
@@ -266,20 +307,29 @@ def check_matrix(ctx, case):
     from biotite.sequence.phylo import neighbor_joining, upgma
 
     n, tri, variant = case["n"], case["tri"], case.get("variant", "float64")
-    D = tri_to_matrix(n, tri)
+    sc = case.get("scale")
+    D = tri_to_matrix(n, tri if sc is None else [v * sc for v in tri])
     integral = all(float(v).is_integer() for v in tri)
-    if variant.startswith("int") and not integral:
+    if variant in INTEGRAL_VARIANTS and not integral:
         return
     arr = make_array(D, variant)
-    before = arr.copy()
+    before = np.array(arr, dtype=object if variant == "object" else None).copy()
     cls = matrix_class(n, tri)
+    if sc is not None:
+        cls += "|scale_small" if sc < 1 else "|scale_large"
+    if variant in NEW_VARIANTS:
+        cls += "|" + variant
+    unit = _unit(D, sc)
+    either = variant in EITHER_VARIANTS
 
     # ---- UPGMA
     try:
         t = upgma(arr)
     except Exception as e:  # noqa: BLE001
         t = None
-        if n >= 2:
+        if either:
+            ctx.count("unspecified")
+        elif n >= 2:
             ctx.violation("upgma|raises_%s|%s" % (type(e).__name__, cls), "upgma refused a legal matrix", case,
                           "a tree", repr(e))
         else:
@@ -289,7 +339,8 @@ def check_matrix(ctx, case):
                       arr.tolist())
     if t is not None and n >= 2:
         ctx.count("accepted")
-        judge_upgma(ctx, t, D, case, cls)
+        judge_upgma(ctx, t, D, case, cls, unit)
+        _result_independent_of_input(ctx, "upgma", t, arr, before, case, cls)
     elif t is not None:
         ctx.count("unspecified")
         check_leaf_set(ctx, "upgma", t, n, case, cls)
@@ -299,7 +350,9 @@ def check_matrix(ctx, case):
         t = neighbor_joining(arr)
     except Exception as e:  # noqa: BLE001
         t = None
-        if n >= 4:
+        if either:
+            ctx.count("unspecified")
+        elif n >= 4:
             ctx.violation("neighbor_joining|raises_%s|%s" % (type(e).__name__, cls),
                           "neighbor_joining refused a legal matrix", case, "a tree", repr(e))
         else:
@@ -321,10 +374,36 @@ def check_matrix(ctx, case):
                               "root arity 3, others 2", ar)
             ctx.outcome(("nj", t.to_newick()))
             if n <= 4:
-                light_roundtrip(ctx, "neighbor_joining", t, case, cls)
+                light_roundtrip(ctx, "neighbor_joining", t, case, cls, unit)
+            _result_independent_of_input(ctx, "neighbor_joining", t, arr, before, case, cls)
 
 
-def judge_upgma(ctx, t, D, case, cls):
+def _unit(D, sc):
+    """Magnitude the tolerance is relative to: 1 for the unscaled palettes (small numbers), the largest entry
+    for the scaled families."""
+    if sc is None:
+        return 1.0
+    m = max((max(r) for r in D), default=0.0)
+    return m if m > 0 else 1.0
+
+
+def _result_independent_of_input(ctx, site, t, arr, before, case, cls):
+    """Mutating the input matrix after the call must not change the returned tree."""
+    if not isinstance(arr, np.ndarray) or not arr.flags.writeable or arr.dtype == object:
+        return
+    s0 = t.to_newick()
+    try:
+        arr += 3
+        s1 = t.to_newick()
+    finally:
+        arr[...] = before
+    ctx.count("alias_checks")
+    if s0 != s1:
+        ctx.violation("%s|result_aliases_input|%s" % (site, cls),
+                      "changing the input matrix after the call changed the returned tree", case, s0, s1)
+
+
+def judge_upgma(ctx, t, D, case, cls, unit=1.0):
     n = len(D)
     if not check_leaf_set(ctx, "upgma", t, n, case, cls):
         return
@@ -335,7 +414,7 @@ def judge_upgma(ctx, t, D, case, cls):
         ctx.violation("upgma|shape|%s" % cls, "UPGMA tree is not a rooted binary tree", case, [2] * (n - 1), ar)
         return
     root, nodes = M.build(spec)
-    scale = max(1.0, max(max(r) for r in D))
+    scale = max(unit, max(max(r) for r in D))
     eps = 1e-5 * scale
     merges = []
     for nd in nodes:
@@ -364,22 +443,30 @@ def judge_upgma(ctx, t, D, case, cls):
                           "merge height differs from half the average linkage of the merged clusters", case,
                           {"clusters": [sorted(A), sorted(B)], "height": want}, hs[0])
             return
-    if not M.upgma_greedy_ok(D, merges, eps):
+    if n <= 12 and not M.upgma_greedy_ok(D, merges, eps):
         ctx.violation("upgma|not_greedy_minimum|%s" % cls,
                       "the merges cannot be ordered so that each joins a minimum-distance pair of clusters", case,
                       "valid UPGMA merge order", [[sorted(a), sorted(b)] for a, b in merges])
         return
     # leaf-to-leaf queries on the returned tree equal explicit path sums
-    for i in range(n):
-        for j in range(n):
-            got = t.get_distance(i, j)
-            want = M.path_sum(_leaf(nodes, i), _leaf(nodes, j))
-            if abs(got - want) > eps:
-                ctx.violation("upgma|get_distance|%s" % cls, "get_distance differs from the explicit path sum", case,
-                              want, got)
-                return
+    leafnode = {nd.idx: nd for nd in nodes if nd.idx is not None}
+    for i, j in _listed_pairs(n):
+        got = t.get_distance(i, j)
+        want = M.path_sum(leafnode[i], leafnode[j])
+        if abs(got - want) > eps:
+            ctx.violation("upgma|get_distance|%s" % cls, "get_distance differs from the explicit path sum", case,
+                          want, got)
+            return
     if n <= 4:
-        light_roundtrip(ctx, "upgma", t, case, cls)
+        light_roundtrip(ctx, "upgma", t, case, cls, unit)
+
+
+def _listed_pairs(n):
+    """all ordered pairs up to 12 leaves; above: (i, i+1 mod n), (0, j), (j, 0) for all i, j"""
+    if n <= 12:
+        return [(i, j) for i in range(n) for j in range(n)]
+    out = [(i, (i + 1) % n) for i in range(n)] + [(0, j) for j in range(n)] + [(j, 0) for j in range(n)]
+    return out
 
 
 def _leaf(nodes, i):
@@ -389,7 +476,7 @@ def _leaf(nodes, i):
     raise KeyError(i)
 
 
-def light_roundtrip(ctx, site, t, case, cls):
+def light_roundtrip(ctx, site, t, case, cls, unit=1.0):
     """Newick round trip / copy / as_binary of an algorithm's result keep all leaf-to-leaf distances."""
     from biotite.sequence.phylo import Tree, as_binary
 
@@ -406,7 +493,7 @@ def light_roundtrip(ctx, site, t, case, cls):
             ctx.violation("%s_result|%s_raises_%s|%s" % (site, name, type(e).__name__, cls),
                           "%s of the returned tree raised" % name, case, "same distances", repr(e))
             continue
-        bad = [k for k in base if abs(base[k] - got[k]) > tol(base[k])]
+        bad = [k for k in base if abs(base[k] - got[k]) > 1e-5 * max(unit, abs(base[k]))]
         if bad:
             ctx.violation("%s_result|%s_distances|%s" % (site, name, cls),
                           "%s of the returned tree changed leaf-to-leaf distances" % name, case,
@@ -430,8 +517,13 @@ def check_additive(ctx, case):
     from biotite.sequence.phylo import neighbor_joining
 
     n, edges, lengths = case["n"], [tuple(e) for e in case["edges"]], case["lengths"]
-    D = M.tree_metric(n, edges, lengths)
+    sc = case.get("scale")
     cls = additive_class(n, lengths, edges)
+    if sc is not None:
+        lengths = [w * sc for w in lengths]
+        cls += "|scale_small" if sc < 1 else "|scale_large"
+    D = M.tree_metric(n, edges, lengths)
+    unit = _unit(D, sc)
     arr = np.array(D, dtype=np.float64)
     try:
         t = neighbor_joining(arr)
@@ -452,12 +544,13 @@ def check_additive(ctx, case):
             got_model = M.path_sum(leaves[i], leaves[j])
             got_api = t.get_distance(i, j)
             got_api_r = t.get_distance(j, i)
-            if abs(got_model - want) > 1e-4 * max(1.0, want):
+            if abs(got_model - want) > 1e-4 * max(unit, want):
                 ctx.violation("neighbor_joining|path_length|%s" % cls,
                               "a leaf-to-leaf path of the NJ tree differs from the additive input matrix", case,
                               {"pair": [i, j], "d": want}, got_model)
                 return
-            if abs(got_api - got_model) > tol(got_model) or abs(got_api_r - got_model) > tol(got_model):
+            lim = 1e-5 * max(unit, abs(got_model))
+            if abs(got_api - got_model) > lim or abs(got_api_r - got_model) > lim:
                 ctx.violation("neighbor_joining|get_distance|%s" % cls,
                               "get_distance differs from the explicit path sum", case, got_model,
                               [got_api, got_api_r])
@@ -499,6 +592,10 @@ def label_sets(n, seed):
         ("awkward", LABELS_AWKWARD[k][:n]),
         ("numeric_reversed", [str(n - 1 - i) for i in range(n)]),
         ("blank", LABELS_SPACE[k][:n]),
+        # empty piece: one label is the empty string (first / inner / last / only, by seed and size)
+        ("empty", [("" if i == k % max(n, 1) else x) for i, x in enumerate(LABELS_PLAIN[k][:n])]),
+        # boundary count: one label more than there are leaves
+        ("longer", LABELS_PLAIN[k][:n] + ["unused"]),
     ]
 
 
@@ -641,6 +738,28 @@ def check_tree(ctx, case):
         elif d is None or abs(d - m.dist) > 1e-6 * abs(m.dist):
             V("TreeNode.distance", "value", "distance differs from the constructor argument", m.dist, d, pcls)
             return
+    # ---- arrays / lists handed out are copies: changing them must not change the tree
+    try:
+        lv = tree.leaves
+        lv.reverse()
+        lv.append(None)
+        del lv[0]
+        ia = root.get_indices()
+        if len(ia):
+            ia[:] = 99
+        gl = root.get_leaves()
+        gl.clear()
+        ch = root.children
+    except Exception as e:  # noqa: BLE001
+        V("Tree.leaves", "mutating_copy_raises_" + type(e).__name__, "changing a returned list/array raised", None, repr(e))
+        return
+    ctx.count("alias_checks")
+    if not check_leaf_set(ctx, "Tree.leaves_after_mutating_returned_list", tree, n, case, cls):
+        return
+    if [int(v) for v in root.get_indices()] != M.leaf_indices(mroot) or len(root.get_leaves()) != n:
+        V("TreeNode.get_indices", "aliases_internal_state", "changing the returned array/list changed the node",
+          M.leaf_indices(mroot), [int(v) for v in root.get_indices()])
+        return
     impl_spec = extract(root)           # same structure, distances as reported by biotite
     exp_map = M.clade_map(impl_spec)
     ctx.outcome(M.canon(impl_spec))
@@ -692,8 +811,11 @@ def check_tree(ctx, case):
     if str(tree) != tree.to_newick():
         V("Tree.__str__", "differs", "str(tree) differs from to_newick()", tree.to_newick(), str(tree))
     for lname, labels in label_sets(n, seed):
-        combos = [(True, None), (False, None)] + ([(True, r) for r in ROUNDS] if lname != "blank" else [])
+        combos = [(True, None), (False, None)] + ([(True, r) for r in ROUNDS] if lname not in ("blank", "empty", "longer") else [])
         lcls = "labels_" + lname
+        labels0 = None if labels is None else list(labels)
+        if lname in ("empty", "longer") and pal not in ("ones", "distinct"):
+            continue
         for incl, rd in combos:
             ocls = "%s|%s|%s" % (cls, lcls, "no_distance" if not incl else ("exact" if rd is None else "rounded"))
             try:
@@ -729,6 +851,11 @@ def check_tree(ctx, case):
                     spec2 = extract(t2.root)
                     n2 = len(t2)
                 except Exception as e:  # noqa: BLE001
+                    if lname == "empty" and "()" in "".join(s2.split()):
+                        # an only child with an empty name and no length is written as "()", which biotite's own
+                        # tests define as invalid Newick -> unspecified
+                        ctx.count("unspecified")
+                        continue
                     V("from_newick", "raises_" + type(e).__name__,
                       "reader raised on a string the writer emitted (%s): %r" % (style, s2[:200]), "tree", repr(e),
                       "label_contains_whitespace" if lname == "blank" and any(_has_blank(x) for x in labels)
@@ -762,6 +889,8 @@ def check_tree(ctx, case):
                     bad = ("raises_" + type(e).__name__, "node", repr(e))
                 if bad:
                     V("TreeNode.from_newick", bad[0], "node read back from %r differs" % s[:200], bad[1], bad[2], ocls)
+        if labels != labels0:
+            V("to_newick/from_newick", "labels_argument_modified", "the labels list was changed by the call", labels0, labels, lcls)
     # structure characters inside a label: statement silent -> refused or round-tripped
     if pal == "ones" and n >= 1:
         for ch in ILLEGAL:
@@ -1107,6 +1236,603 @@ def check_eqpair(ctx, case):
         ctx.violation("Tree.__hash__|differs|equal_trees", "equal trees hash differently", case)
 
 
+
+# ---------------------------------------------------------------------------
+# dimension families added by the audit: API flavours, many items, refusals, nesting depth
+# ---------------------------------------------------------------------------
+ACCEPT_FLAVOURS = ["children_tuple", "children_objarray", "dist_tuple", "dist_f64array", "dist_npf64_list",
+                   "labels_tuple", "labels_nparray"]
+EITHER_FLAVOURS = ["dist_f32array", "dist_i64array", "index_npint64", "index_npuint8", "index_npint32", "index_0d",
+                   "index_bool", "getdist_npint64", "getdist_npuint8", "getdist_0d", "topological_npbool",
+                   "topological_int", "round_npint64", "incl_npbool", "incl_int0", "reader_labels_tuple",
+                   "newick_str_subclass"]
+
+
+class _Str(str):
+    pass
+
+
+def build_impl_flavoured(spec, flav):
+    from biotite.sequence.phylo import TreeNode
+
+    def idx(i):
+        return {"index_npint64": np.int64, "index_npuint8": np.uint8, "index_npint32": np.int32,
+                "index_0d": np.array, "index_bool": (lambda v: bool(v) if v in (0, 1) else v)}.get(flav, int)(i)
+
+    def rec(s):
+        if isinstance(s, int):
+            return TreeNode(index=idx(s))
+        kids = [rec(cs) for cs, _ in s]
+        dl = [float(d) for _, d in s]
+        if flav == "children_tuple":
+            kids = tuple(kids)
+        elif flav == "children_objarray":
+            a = np.empty(len(kids), dtype=object)
+            a[:] = kids
+            kids = a
+        if flav == "dist_tuple":
+            dl = tuple(dl)
+        elif flav == "dist_f64array":
+            dl = np.array(dl, dtype=np.float64)
+        elif flav == "dist_npf64_list":
+            dl = [np.float64(d) for d in dl]
+        elif flav == "dist_f32array":
+            dl = np.array(dl, dtype=np.float32)
+        elif flav == "dist_i64array":
+            dl = np.array([int(round(d * 4)) for d in dl], dtype=np.int64)
+        return TreeNode(kids, dl)
+
+    return rec(spec)
+
+
+def check_treeflav(ctx, case):
+    """Differential: the same tree / query / string through another argument flavour equals the result with
+    plain Python types (ACCEPT flavours: documented 'array-like' / 'iterable'); EITHER flavours may also raise."""
+    from biotite.sequence.phylo import Tree
+
+    spec, flav = case["spec"], case["flav"]
+    n = len(M.spec_leaves(spec))
+    plain_spec = spec
+    if flav == "dist_i64array":
+        plain_spec = json.loads(json.dumps(spec), parse_float=lambda x: float(int(round(float(x) * 4))))
+    plain = Tree(build_impl(plain_spec)[0])
+    labels = LABELS_PLAIN[0][:n]
+    must = flav in ACCEPT_FLAVOURS
+
+    def run():
+        if flav.startswith(("children_", "dist_", "index_")):
+            t = Tree(build_impl_flavoured(spec, flav))
+            return ("tree", extract(t.root), [lf.index for lf in t.leaves], t.to_newick()), \
+                   ("tree", extract(plain.root), [lf.index for lf in plain.leaves], plain.to_newick())
+        if flav.startswith("getdist_"):
+            conv = {"getdist_npint64": np.int64, "getdist_npuint8": np.uint8, "getdist_0d": np.array}[flav]
+            return [plain.get_distance(conv(i), conv(j)) for i in range(n) for j in range(n)], \
+                   [plain.get_distance(i, j) for i in range(n) for j in range(n)]
+        if flav.startswith("topological_"):
+            v = np.bool_(True) if flav == "topological_npbool" else 1
+            return [plain.get_distance(i, j, v) for i in range(n) for j in range(n)], \
+                   [plain.get_distance(i, j, True) for i in range(n) for j in range(n)]
+        if flav == "labels_tuple":
+            return plain.to_newick(labels=tuple(labels)), plain.to_newick(labels=labels)
+        if flav == "labels_nparray":
+            return plain.to_newick(labels=np.array(labels)), plain.to_newick(labels=labels)
+        if flav == "round_npint64":
+            return plain.to_newick(round_distance=np.int64(2)), plain.to_newick(round_distance=2)
+        if flav == "incl_npbool":
+            return plain.to_newick(include_distance=np.bool_(False)), plain.to_newick(include_distance=False)
+        if flav == "incl_int0":
+            return plain.to_newick(include_distance=0), plain.to_newick(include_distance=False)
+        if flav == "reader_labels_tuple":
+            s = plain.to_newick(labels=labels)
+            return extract(Tree.from_newick(s, labels=tuple(labels)).root), extract(Tree.from_newick(s, labels=labels).root)
+        if flav == "newick_str_subclass":
+            s = plain.to_newick()
+            return extract(Tree.from_newick(_Str(s)).root), extract(Tree.from_newick(s).root)
+        raise ValueError(flav)
+
+    try:
+        got, want = run()
+    except Exception as e:  # noqa: BLE001
+        if must:
+            ctx.violation("flavour|raises_%s|%s" % (type(e).__name__, flav),
+                          "a documented array-like / iterable argument flavour was refused", case, "as with lists", repr(e))
+        else:
+            ctx.count("unspecified")
+            ctx.count("flavour_refused_" + flav)
+        return
+    ctx.count("accepted")
+    ctx.outcome((flav, repr(got)[:200]))
+    if got != want:
+        ctx.violation("flavour|differs_from_plain_types|%s" % flav,
+                      "the result differs from the one obtained with plain Python types", case, want, got)
+
+
+def run_treeflav(shard, ctx):
+    b = DIST_BASES[ctx.seed % len(DIST_BASES)]
+    for n in (1, 2, 3):
+        for sh in M.shapes(n, 1):
+            ne = M.shape_stats(sh)[3]
+            spec = M.instantiate(sh, list(range(n)), [(k + 1) * b for k in range(ne)])
+            for flav in ACCEPT_FLAVOURS + EITHER_FLAVOURS:
+                case = {"kind": "treeflav", "spec": spec, "flav": flav}
+                if not ctx.journal(case):
+                    continue
+                ctx.ev(1, 1)
+                check_treeflav(ctx, case)
+    ctx.sample(case)
+
+
+# ---- many items -------------------------------------------------------------
+def _coprime_step(n):
+    for m in (7, 11, 13, 17, 3, 5, 1):
+        if math.gcd(m, n) == 1:
+            return m
+    return 1
+
+
+def big_spec(shape, n, base):
+    """Listed large trees; leaf at position i gets index (i*m+1) % n (m coprime to n); edge k gets length
+    ((k % 17) + 1) * base."""
+    m = _coprime_step(n)
+    k = [0]
+
+    def d():
+        k[0] += 1
+        return ((k[0] - 1) % 17 + 1) * base
+
+    def leaf(i):
+        return (i * m + 1) % n
+
+    if shape == "star":
+        return [[leaf(i), d()] for i in range(n)]
+    if shape == "caterpillar":
+        spec = leaf(0)
+        for i in range(1, n):
+            spec = [[spec, d()], [leaf(i), d()]]
+        return spec
+    if shape == "balanced":
+        def rec(lo, hi):
+            if hi - lo == 1:
+                return leaf(lo)
+            mid = (lo + hi) // 2
+            return [[rec(lo, mid), d()], [rec(mid, hi), d()]]
+        return rec(0, n)
+    if shape == "broom":          # root with unary-over-leaf, cherry and three-way children in turn
+        kids, i, turn = [], 0, 0
+        while i < n:
+            w = min((1, 2, 3)[turn % 3], n - i)
+            turn += 1
+            if w == 1:
+                kids.append([[[leaf(i), d()]], d()])
+            else:
+                kids.append([[[leaf(i + j), d()] for j in range(w)], d()])
+            i += w
+        return kids
+    raise ValueError(shape)
+
+
+def _big_pairs(n):
+    if n <= 130:
+        return _listed_pairs(n)
+    step = max(1, n // 40)
+    return ([(0, n - 1), (n - 1, 0), (0, 1), (n // 2, n // 2 + 1), (1, n - 2), (n // 3, 2 * n // 3)]
+            + [(i, (i + 1) % n) for i in range(0, n, step)])
+
+
+def big_matrix(n):
+    """symmetric, zero diagonal, (almost) all entries distinct, 1 <= d < 158"""
+    D = [[0.0] * n for _ in range(n)]
+    for a in range(n):
+        for b in range(a + 1, n):
+            D[a][b] = D[b][a] = 1 + ((a * 7919 + b * 104729 + a * b * 31) % 10007) / 64
+    return D
+
+
+def size_class(n):
+    return "n_%d_digits" % len(str(n - 1)) if n <= 1001 else "n_gt_1001"
+
+
+def check_big(ctx, case):
+    import sys
+
+    from biotite.sequence.phylo import Tree, as_binary, neighbor_joining, upgma
+
+    what, n = case["what"], case["n"]
+    cls = size_class(n)
+    if sys.getrecursionlimit() < 6 * n + 2000:
+        sys.setrecursionlimit(6 * n + 2000)       # for the (recursive, pure Python) reference model
+    base = DIST_BASES[case.get("seed", 0) % len(DIST_BASES)]
+
+    def V(site, fail, msg, exp=None, got=None):
+        ctx.violation("%s|%s|%s" % (site, fail, cls), msg, case, exp, got)
+
+    if what == "tree":
+        spec = big_spec(case["shape"], n, base)
+        try:
+            root, inodes = build_impl(spec)
+            tree = Tree(root)
+        except Exception as e:  # noqa: BLE001
+            V("construct", "raises_" + type(e).__name__, "a legal large tree could not be built", "tree", repr(e))
+            return
+        ctx.count("accepted")
+        if not check_leaf_set(ctx, "Tree", tree, n, case, cls):
+            return
+        mroot, mnodes = M.build(spec)
+        leafnode = {m.idx: m for m in mnodes if m.idx is not None}
+        pairs = _big_pairs(n)
+        ld = {}
+        for i, j in pairs:
+            w = M.path_sum(leafnode[i], leafnode[j])
+            g = tree.get_distance(i, j)
+            ld[(i, j)] = g
+            wt = M.path_sum(leafnode[i], leafnode[j], True)
+            if abs(g - w) > tol(w) or tree.get_distance(i, j, True) != wt:
+                V("Tree.get_distance", "value", "get_distance differs from the explicit path sum", [w, wt],
+                  [g, tree.get_distance(i, j, True)])
+                return
+        impl_spec = extract(root)
+        small = n <= 300
+        exp_map = M.clade_map(impl_spec)
+        label_opts = [("none", None)]
+        if small:
+            label_opts += [("plain", ["t%d" % i for i in range(n)]), ("numeric_reversed", [str(n - 1 - i) for i in range(n)])]
+        for lname, labels in label_opts:
+            for incl in ((True, False) if small else (True,)):
+                kw = {} if labels is None else {"labels": labels}
+                if not incl:
+                    kw["include_distance"] = False
+                ocls = "labels_%s|%s" % (lname, "exact" if incl else "no_distance")
+                try:
+                    s = tree.to_newick(**kw)
+                    bad = _cmp_parsed(M.newick_parse(s), spec, labels, incl, None, impl_spec)
+                except Exception as e:  # noqa: BLE001
+                    bad = ("raises_" + type(e).__name__, "string", repr(e)[:300])
+                    s = None
+                ctx.count("newick_written")
+                if bad:
+                    V("to_newick", bad[0] + "|" + ocls, "the written string does not describe the tree", bad[1], bad[2])
+                    continue
+                try:
+                    t2 = Tree.from_newick(s, labels=labels) if labels is not None else Tree.from_newick(s)
+                    bad = _cmp_clades(exp_map, extract(t2.root), "exact" if incl else "zero", None)
+                    if not bad and incl and not (t2 == tree and hash(t2) == hash(tree)):
+                        bad = ("not_equal_to_original", True, False)
+                    if not bad and incl:
+                        for (i, j), g in ld.items():
+                            if t2.get_distance(i, j) != g:
+                                bad = ("leaf_distance", g, t2.get_distance(i, j))
+                                break
+                except Exception as e:  # noqa: BLE001
+                    bad = ("raises_" + type(e).__name__, "tree", repr(e)[:300])
+                ctx.count("newick_read")
+                if bad:
+                    V("from_newick", bad[0] + "|" + ocls, "tree read back differs", bad[1], bad[2])
+        try:
+            c = tree.copy()
+            bad = None
+            if extract(c.root) != impl_spec:
+                bad = ("structure", None, None)
+            elif not (c == tree and hash(c) == hash(tree)):
+                bad = ("not_equal", True, False)
+        except Exception as e:  # noqa: BLE001
+            bad = ("raises_" + type(e).__name__, "tree", repr(e)[:300])
+        if bad:
+            V("Tree.copy", bad[0], "the copy differs from the tree", bad[1], bad[2])
+        try:
+            b = as_binary(tree)
+            bspec = extract(b.root)
+            bad = None
+            if any(a != 2 for a in arities(bspec)):
+                bad = ("not_binary", 2, sorted(set(arities(bspec))))
+            elif not check_leaf_set(ctx, "as_binary", b, n, case, cls):
+                bad = None
+            else:
+                for (i, j), g in ld.items():
+                    if abs(b.get_distance(i, j) - g) > tol(g):
+                        bad = ("leaf_distance", g, b.get_distance(i, j))
+                        break
+                if not bad and small and not {k[0] for k in exp_map} <= {k[0] for k in M.clade_map(bspec)}:
+                    bad = ("clade_lost", None, None)
+        except Exception as e:  # noqa: BLE001
+            bad = ("raises_" + type(e).__name__, "tree", repr(e)[:300])
+        if bad:
+            V("as_binary(tree)", bad[0], "binary form differs from the tree", bad[1], bad[2])
+        ctx.outcome((case["shape"], n))
+        return
+
+    if what == "cluster":
+        D = big_matrix(n)
+        arr = np.array(D)
+        try:
+            t = upgma(arr)
+        except Exception as e:  # noqa: BLE001
+            V("upgma", "raises_" + type(e).__name__, "upgma refused a legal matrix", "tree", repr(e))
+            t = None
+        if t is not None:
+            ctx.count("accepted")
+            judge_upgma(ctx, t, D, case, cls)
+            if n <= 33 and not M.upgma_has_ties(D, 1e-6):
+                # orientation: the same taxa in another order give the same tree (no ties -> unique result)
+                m = _coprime_step(n)
+                perm = [(i * m + 1) % n for i in range(n)]          # new position i holds old taxon perm[i]
+                t2 = upgma(arr[np.ix_(perm, perm)])
+                for i in range(n):
+                    for j in range(n):
+                        a, b2 = t.get_distance(perm[i], perm[j]), t2.get_distance(i, j)
+                        if abs(a - b2) > tol(a):
+                            V("upgma", "depends_on_taxon_order", "permuting the taxa changed the cophenetic distances",
+                              a, b2)
+                            return
+            elif n <= 33:
+                ctx.count("unspecified")
+        try:
+            t = neighbor_joining(arr)
+        except Exception as e:  # noqa: BLE001
+            V("neighbor_joining", "raises_" + type(e).__name__, "neighbor_joining refused a legal matrix", "tree", repr(e))
+            return
+        ctx.count("accepted")
+        if check_leaf_set(ctx, "neighbor_joining", t, n, case, cls):
+            ar = arities(extract(t.root))
+            if sorted(ar) != [2] * (len(ar) - 1) + [3]:
+                V("neighbor_joining", "shape", "tree is not binary with a three-way root", "3,2,2,...", sorted(set(ar)))
+        return
+
+    if what == "additive":
+        spec = big_spec(case["shape"], n, 1.0)
+        mroot, mnodes = M.build(spec)
+        leafnode = {m.idx: m for m in mnodes if m.idx is not None}
+        D = [[0.0] * n for _ in range(n)]
+        for i in range(n):
+            for j in range(i + 1, n):
+                D[i][j] = D[j][i] = M.path_sum(leafnode[i], leafnode[j])
+        try:
+            t = neighbor_joining(np.array(D))
+        except Exception as e:  # noqa: BLE001
+            V("neighbor_joining", "raises_" + type(e).__name__, "neighbor_joining refused an additive matrix", "tree", repr(e))
+            return
+        ctx.count("accepted")
+        if not check_leaf_set(ctx, "neighbor_joining", t, n, case, cls):
+            return
+        for i in range(n):
+            for j in range(i + 1, n):
+                g = t.get_distance(i, j)
+                if abs(g - D[i][j]) > 1e-4 * max(1.0, D[i][j]):
+                    V("neighbor_joining", "path_length", "a leaf-to-leaf path of the NJ tree differs from the additive matrix",
+                      {"pair": [i, j], "d": D[i][j]}, g)
+                    return
+        troot, tnodes = M.build(extract(t.root))
+        tl = {m.idx: m for m in tnodes if m.idx is not None}
+        for i, j in _big_pairs(n):
+            w = M.path_sum(tl[i], tl[j])
+            if abs(t.get_distance(i, j) - w) > tol(w):
+                V("neighbor_joining", "get_distance", "get_distance differs from the explicit path sum", w, t.get_distance(i, j))
+                return
+        return
+    raise ValueError(case)
+
+
+def big_cases(tier):
+    q = tier == "quick"
+    out = []
+    sizes = [9, 10, 11, 12, 99, 100, 101, 130, 260] + ([] if q else [999, 1000, 1001])
+    for n in sizes:
+        for shape in ("star", "caterpillar", "balanced", "broom"):
+            out.append({"kind": "big", "what": "tree", "shape": shape, "n": n})
+    for n in [9, 10, 11, 12, 33, 100, 101] + ([] if q else [130, 260]):
+        out.append({"kind": "big", "what": "cluster", "n": n})
+    for n in [9, 10, 11, 12, 33, 100, 101] + ([] if q else [130, 260]):
+        for shape in ("caterpillar", "balanced", "broom") if n <= 101 else ("balanced", "broom"):
+            out.append({"kind": "big", "what": "additive", "shape": shape, "n": n})
+    return out
+
+
+def run_big(shard, ctx):
+    cases = big_cases(ctx.tier)
+    for k, case in enumerate(cases):
+        if k % shard["parts"] != shard["part"]:
+            continue
+        case = {**case, "seed": ctx.seed}
+        if not ctx.journal(case):
+            continue
+        ctx.ev(1, 1)
+        check_big(ctx, case)
+        if len(ctx.samples) < 1:
+            ctx.sample(case)
+
+
+# ---- refusals of the clustering functions --------------------------------------
+VALID4 = [1.0, 2.0, 4.0, 2.0, 4.0, 3.0]
+
+
+def refuse_cases():
+    out = []
+    for full in itertools.product((-1, 0, 1, 2), repeat=6):        # n=3, entries (0,1)(0,2)(1,0)(1,2)(2,0)(2,1)
+        a01, a02, a10, a12, a20, a21 = full
+        if a01 == a10 and a02 == a20 and a12 == a21 and min(full) >= 0:
+            continue                                                # valid: covered by the matrix space
+        Mx = [[0, a01, a02], [a10, 0, a12], [a20, a21, 0]]
+        out.append({"kind": "refuse", "M": Mx, "expect": "ValueError",
+                    "cls": "n3_" + ("negative" if min(full) < 0 else "asymmetric")})
+    base = tri_to_matrix(4, VALID4)
+    for i in range(4):
+        for j in range(4):
+            if i == j:
+                continue
+            Mx = [list(r) for r in base]
+            Mx[i][j] += 1
+            out.append({"kind": "refuse", "M": Mx, "expect": "ValueError", "cls": "n4_asymmetric"})
+            if i < j:
+                Mx = [list(r) for r in base]
+                Mx[i][j] = Mx[j][i] = -1
+                out.append({"kind": "refuse", "M": Mx, "expect": "ValueError", "cls": "n4_negative"})
+                for bad, nm in ((float("nan"), "nan"), (float("inf"), "inf")):
+                    Mx = [list(r) for r in base]
+                    Mx[i][j] = Mx[j][i] = repr(bad)
+                    out.append({"kind": "refuse", "M": Mx, "expect": "either", "cls": "n4_" + nm})
+    out.append({"kind": "refuse", "M": [[0, 1, 2], [1, 0, 3]], "expect": "ValueError", "cls": "shape_2x3"})
+    out.append({"kind": "refuse", "M": [[0, 1], [1, 0], [2, 3]], "expect": "ValueError", "cls": "shape_3x2"})
+    out.append({"kind": "refuse", "M": [0, 1, 2, 3], "expect": "either", "cls": "shape_1d"})
+    out.append({"kind": "refuse", "M": [[[0, 1], [1, 0]], [[0, 1], [1, 0]]], "expect": "either", "cls": "shape_3d"})
+    return out
+
+
+def check_refuse(ctx, case):
+    """documented refusal -> ValueError, argument unchanged, and the next valid call behaves like a fresh one"""
+    from biotite.sequence.phylo import neighbor_joining, upgma
+
+    def conv(x):
+        if isinstance(x, list):
+            return [conv(v) for v in x]
+        return float(x) if isinstance(x, str) else x
+
+    valid = np.array(tri_to_matrix(4, VALID4))
+    for name, fn in (("upgma", upgma), ("neighbor_joining", neighbor_joining)):
+        ref = fn(valid).to_newick()
+        arr = np.array(conv(case["M"]), dtype=np.float64)
+        before = arr.copy()
+        try:
+            r = fn(arr)
+            err = None
+        except Exception as e:  # noqa: BLE001
+            r, err = None, e
+        ctx.outcome((name, case["cls"], type(err).__name__))
+        if case["expect"] == "either":
+            ctx.count("unspecified")
+        else:
+            ctx.count("refused")
+            if err is None:
+                ctx.violation("%s|no_error|%s" % (name, case["cls"]), "a documented refusal did not happen", case,
+                              "ValueError", r.to_newick() if r is not None else None)
+            elif type(err).__name__ != "ValueError":
+                ctx.violation("%s|wrong_error_%s|%s" % (name, type(err).__name__, case["cls"]),
+                              "documented ValueError expected", case, "ValueError", repr(err))
+        if not np.array_equal(arr, before, equal_nan=True):
+            ctx.violation("%s|input_modified_by_refused_call|%s" % (name, case["cls"]), "the refused call changed its argument",
+                          case, before.tolist(), arr.tolist())
+        again = fn(valid).to_newick()
+        if again != ref:
+            ctx.violation("%s|stale_state_after_refusal|%s" % (name, case["cls"]),
+                          "the next valid call differs from the same call before the refusal", case, ref, again)
+
+
+def run_refuse(shard, ctx):
+    for case in refuse_cases():
+        if not ctx.journal(case):
+            continue
+        ctx.ev(1, 1)
+        check_refuse(ctx, case)
+    ctx.sample(case)
+
+
+# ---- nesting depth ------------------------------------------------------------------
+DEEP_OPS = ["Tree", "get_leaf_count", "to_newick", "copy", "hash", "eq", "as_binary", "from_newick", "get_distance"]
+
+
+def _deep_op(arg):
+    """Executed in a forked child: build a caterpillar of the given depth bottom-up, run one operation, return a
+    small summary that is compared with the closed form."""
+    import sys
+
+    from biotite.sequence.phylo import Tree, TreeNode, as_binary
+
+    op, depth = arg
+    sys.setrecursionlimit(max(sys.getrecursionlimit(), 1000))
+
+    def cat():
+        node = TreeNode(index=0)
+        for i in range(1, depth):
+            node = TreeNode([node, TreeNode(index=i)], [1.0, 1.0])
+        return node
+
+    if op == "from_newick":
+        s = "(" * (depth - 1) + "0:1.0" + "".join(",%d:1.0):1.0" % i for i in range(1, depth)) + ";"
+        t = Tree.from_newick(s)
+        return [len(t), t.get_distance(0, depth - 1)]
+    root = cat()
+    if op == "Tree":
+        return [len(Tree(root))]
+    if op == "get_leaf_count":
+        return [root.get_leaf_count()]
+    if op == "to_newick":
+        s = root.to_newick()
+        return [s.count("("), s.count(","), s[: 6], s[-9:]]
+    if op == "copy":
+        c = root.copy()
+        return [c.get_leaf_count()]
+    if op == "hash":
+        return [isinstance(hash(root), int)]
+    if op == "eq":
+        return [root == cat()]
+    if op == "as_binary":
+        return [len(as_binary(Tree(root)))]
+    if op == "get_distance":
+        return [Tree(root).get_distance(0, depth - 1)]
+    raise ValueError(op)
+
+
+def _deep_expected(op, depth):
+    return {"Tree": [depth], "get_leaf_count": [depth], "copy": [depth], "hash": [True], "eq": [True],
+            "as_binary": [depth], "get_distance": [float(depth)], "from_newick": [depth, float(depth)],
+            "to_newick": [depth - 1, depth - 1, "((((((", ":1.0):0.0"]}[op]
+
+
+def check_deep(ctx, case):
+    import biotite.sequence.phylo  # noqa: F401  (imported before forking)
+
+    op, depth = case["op"], case["depth"]
+    cls = "nesting_le_3000" if depth <= 3000 else "nesting_deeper_than_10000"
+    r = ctx.isolated(_deep_op, (op, depth), timeout=240)
+    ctx.outcome((op, depth, r[0], r[1] if r[0] in ("exc", "signal") else None))
+    if r[0] == "ok":
+        ctx.count("accepted")
+        want = _deep_expected(op, depth)
+        if list(r[1]) != want:
+            ctx.violation("%s|wrong_result|%s" % (op, cls), "operation on a deeply nested tree returned a wrong result",
+                          case, want, r[1])
+    elif r[0] == "exc" and (depth > 3000 or op == "eq"):
+        # clean refusal of an extreme nesting depth; == (not part of the statement) runs into the interpreter's
+        # recursion limit from a nesting depth of about 500 on when the two trees are different objects
+        ctx.count("unspecified")
+        ctx.count("deep_%s_raises_%s" % (op, r[1]))
+    elif r[0] == "exc":
+        ctx.violation("%s|raises_%s|%s" % (op, r[1], cls), "a tree nested deeper than the interpreter's recursion limit "
+                      "(1000) but far from any resource limit was refused", case, "result", list(r))
+    else:
+        ctx.violation("%s|process_terminated|%s" % (op, cls),
+                      "the interpreter was killed / did not return (%s) on a deeply nested tree" % (r,), case,
+                      "result or exception", list(r))
+
+
+def deep_cases(tier):
+    """nesting depths straddling the interpreter's recursion limit (1000) must work; 30 000 and 100 000 (beyond
+    what an 8 MiB C stack carries for the recursive compiled methods) may be refused but must not end the process.
+    The Newick reader is quadratic in the nesting depth (2 CPU-minutes at 30 000): thorough only."""
+    q = tier == "quick"
+    out = []
+    for depth in ([1100] if q else [999, 1000, 1001, 1100, 3000]):
+        for op in DEEP_OPS:
+            out.append({"kind": "deep", "op": op, "depth": depth})
+    for depth in (30000, 100000):
+        for op in DEEP_OPS:
+            if op == "from_newick" and (q or depth > 30000):
+                continue
+            if op == "eq" and depth == 30000 and q:
+                continue                                # 20 s until the RecursionError arrives
+            out.append({"kind": "deep", "op": op, "depth": depth})
+    return out
+
+
+def run_deep(shard, ctx):
+    for k, case in enumerate(deep_cases(ctx.tier)):
+        if k % shard["parts"] != shard["part"]:
+            continue
+        if not ctx.journal(case):
+            continue
+        ctx.ev(1, 1)
+        check_deep(ctx, case)
+    ctx.sample(case)
+
+
 # ---------------------------------------------------------------------------
 # shards
 # ---------------------------------------------------------------------------
@@ -1146,6 +1872,20 @@ def shards(tier, seed):
             out.append({"kind": "additive", "n": 6, "pal": "pos", "t0": t0, "t1": t0 + 1, "distinct": 3})
         for t0 in range(0, 105, 7):
             out.append({"kind": "additive", "n": 6, "pal": "zero", "t0": t0, "t1": t0 + 7, "distinct": 2})
+    # dimension families (audit): magnitude, array flavours
+    out.append({"kind": "matrix", "n": 4, "vals": "zero_two", "part": 0, "parts": 1, "scales": SCALES, "fam": "scaled"})
+    for pal in ("pos", "zero"):
+        out.append({"kind": "additive", "n": 4, "pal": pal, "t0": 0, "t1": 3, "distinct": 3, "scales": SCALES,
+                    "fam": "scaled"})
+    for n_ in (2, 3):
+        out.append({"kind": "matrix", "n": n_, "vals": "all", "part": 0, "parts": 1, "flavours": True, "fam": "flavours"})
+    out.append({"kind": "matrix", "n": 4, "vals": "two", "part": 0, "parts": 1, "flavours": True, "fam": "flavours"})
+    out.append({"kind": "treeflav", "fam": "flavours"})
+    for p in range(4 if q else 8):
+        out.append({"kind": "big", "part": p, "parts": 4 if q else 8, "fam": "big"})
+    out.append({"kind": "refuse", "fam": "refuse"})
+    for p in range(3):
+        out.append({"kind": "deep", "part": p, "parts": 3, "fam": "deep"})
     # trees
     U = 1 if q else 2
     for n, parts in ((1, 1), (2, 1), (3, 1), (4, 8 if q else 24), (5, 16 if q else 96)):
@@ -1193,6 +1933,14 @@ def run_shard(shard, ctx):
         run_misuse(shard, ctx)
     elif k == "eqpairs":
         run_eqpairs(shard, ctx)
+    elif k == "treeflav":
+        run_treeflav(shard, ctx)
+    elif k == "big":
+        run_big(shard, ctx)
+    elif k == "refuse":
+        run_refuse(shard, ctx)
+    elif k == "deep":
+        run_deep(shard, ctx)
     else:
         raise ValueError(shard)
 
@@ -1228,14 +1976,19 @@ def run_matrix(shard, ctx):
         idx += 1
         if idx % parts != part:
             continue
-        variants = VARIANTS if n <= 3 else ["float64"]
-        for variant in variants:
+        if shard.get("flavours"):
+            variants = [v for v in VARIANTS + NEW_VARIANTS if v != "float64"] if n >= 4 else NEW_VARIANTS
+        else:
+            variants = VARIANTS if n <= 3 else ["float64"]
+        for variant, sc in itertools.product(variants, shard.get("scales") or [None]):
             case = {"kind": "matrix", "n": n, "tri": list(tri), "variant": variant}
-            if variant.startswith("int") and not all(float(v).is_integer() for v in tri):
+            if sc is not None:
+                case["scale"] = sc
+            if variant in INTEGRAL_VARIANTS and not all(float(v).is_integer() for v in tri):
                 continue
             if not ctx.journal(case):
                 continue
-            nontriv = n >= 3 and (len(set(tri)) < len(tri) or 0 in tri) and variant == "float64"
+            nontriv = n >= 3 and (len(set(tri)) < len(tri) or 0 in tri) and (variant == "float64" or shard.get("flavours"))
             ctx.ev(1, 1 if nontriv else 0)
             check_matrix(ctx, case)
             if part == 0 and len(ctx.samples) < 1 and len(set(tri)) == min(len(vals), len(tri)):
@@ -1263,11 +2016,14 @@ def run_additive(shard, ctx):
         for lengths in itertools.product(pal, repeat=len(edges)):
             if len(set(lengths)) > shard["distinct"]:
                 continue
-            if not ctx.journal(pre + json.dumps(list(lengths)) + "}"):
-                continue
-            case = {"kind": "additive", "n": n, "edges": [list(e) for e in edges], "lengths": list(lengths)}
-            ctx.ev(1, 1)
-            check_additive(ctx, case)
+            for sc in shard.get("scales") or [None]:
+                if not ctx.journal(pre + json.dumps(list(lengths)) + ("}" if sc is None else ', "scale": %r}' % sc)):
+                    continue
+                case = {"kind": "additive", "n": n, "edges": [list(e) for e in edges], "lengths": list(lengths)}
+                if sc is not None:
+                    case["scale"] = sc
+                ctx.ev(1, 1)
+                check_additive(ctx, case)
             if t0 == 0 and len(ctx.samples) < 1 and len(set(lengths)) == min(shard["distinct"], len(pal)):
                 ctx.sample(case)
 
@@ -1400,6 +2156,14 @@ def replay(case, ctx):
         check_misuse(ctx, case)
     elif k == "eqpair":
         check_eqpair(ctx, case)
+    elif k == "treeflav":
+        check_treeflav(ctx, case)
+    elif k == "big":
+        check_big(ctx, case)
+    elif k == "refuse":
+        check_refuse(ctx, case)
+    elif k == "deep":
+        check_deep(ctx, case)
     else:
         raise ValueError(case)
 
